@@ -30,6 +30,7 @@ import (
 	"testing"
 
 	"github.com/rqlite/rqlite/v10/internal/verif/vsnap"
+	"github.com/rqlite/rqlite/v10/internal/verif/vsql"
 	"github.com/rqlite/rqlite/v10/internal/verif/vstat"
 	"github.com/rqlite/rqlite/v10/snapshot"
 	sproto "github.com/rqlite/rqlite/v10/snapshot/proto"
@@ -278,7 +279,7 @@ func c10CheckMutation(src *c10Source, m c10Mut, dest *snapshot.Store, index uint
 		v.labels = append(v.labels, "restore:rejected")
 	case got != src.snap.Dump:
 		v.sig = "C10/altered-data-restored"
-		if m.kind == "hdr-drop-last-wal" || m.kind == "flip" {
+		if m.kind == "hdr-drop-last-wal" || (m.kind == "flip" && m.region == "header") {
 			v.sig = "C10/restore-ignores-trailing-bytes"
 		}
 		v.msg = fmt.Sprintf("snapshot.Restore of mutation %v returned nil with different content:\n--- restored\n%s--- source\n%s", m, g4Short(got), g4Short(src.snap.Dump))
@@ -685,4 +686,93 @@ func TestVerif_C10_EveryPos(t *testing.T) {
 		b.Close()
 	}
 	rec.SetExhaustive(!failed && vstat.Thorough())
+}
+
+// c10IncompressibleDB writes a SQLite file with 512-byte pages holding one
+// row whose blob of pseudo-random bytes is sized so that the leaf page and
+// every overflow page are full (payload = 477 + 508*k): almost nothing in the
+// file compresses. This is a file a node can be booted from.
+func c10IncompressibleDB(path string, k int, seed uint64) error {
+	db, err := vsql.Open(path)
+	if err != nil {
+		return err
+	}
+	defer db.Close()
+	if _, err := db.Exec(`PRAGMA page_size=512`); err != nil {
+		return err
+	}
+	if _, err := db.Exec(`CREATE TABLE t(b)`); err != nil {
+		return err
+	}
+	blob := make([]byte, 477+508*k)
+	x := seed | 1
+	for i := range blob {
+		x ^= x << 13
+		x ^= x >> 7
+		x ^= x << 17
+		blob[i] = byte(x >> 29)
+	}
+	_, err = db.Exec(`INSERT INTO t(b) VALUES(?)`, blob)
+	return err
+}
+
+// Compressed transfer of databases that do not compress: the wire stream is
+// the uncompressed size plus framing, and raft limits the connection to Size.
+func TestVerif_C10_Incompressible(t *testing.T) {
+	vsnap.Quiet()
+	rec := vstat.New(t, "C10", "incompressible",
+		"rapid: a node booted from a SQLite file with 512-byte pages and one pseudo-random blob of 0.1..24 MB that fills its pages exactly; full snapshot; transfer with transport compression on (real compressor/decompressor, raft's Size limit on the connection), whole-stream writes; must install and restore to the source content. non-trivial = compressed wire stream is longer than the uncompressed Size; distinct by blob size+seed")
+	rapid.Check(t, func(rt *rapid.T) {
+		root, err := os.MkdirTemp("", "c10i")
+		if err != nil {
+			rt.Skip()
+		}
+		defer os.RemoveAll(root)
+		k := rapid.SampledFrom([]int{200, 2000, 12000, 30000, 36000, 44000, 48000}).Draw(rt, "k") + rapid.IntRange(0, 50).Draw(rt, "dk")
+		seed := rapid.Uint64().Draw(rt, "seed")
+		file := filepath.Join(root, "boot.db")
+		if err := c10IncompressibleDB(file, k, seed); err != nil {
+			rt.Fatalf("harness: %v", err)
+		}
+		b, err := vsnap.NewWithDB(filepath.Join(root, "src"), file)
+		if err != nil {
+			rt.Fatalf("harness: %v", err)
+		}
+		defer b.Close()
+		snapshot.VerifG4QuietStore(b.Store)
+		sn, err := b.Full(10, 1)
+		if err != nil {
+			rt.Fatalf("harness: full snapshot: %v", err)
+		}
+		src, err := c10ReadSource(b, sn)
+		if err != nil {
+			rt.Fatalf("harness: %v", err)
+		}
+		wire, err := g4Compress(src.data, src.size)
+		if err != nil {
+			rt.Fatalf("harness: compress: %v", err)
+		}
+		longer := int64(len(wire)) > src.size
+		rec.Case(longer, fmt.Sprintf("%d/%d", k, seed))
+		rec.Label(fmt.Sprintf("wire-longer-than-size:%v", longer))
+		rec.Sample(fmt.Sprintf("blob=%d stream=%d wire=%d", 477+508*k, len(src.data), len(wire)))
+		dest, closeDest, err := c10NewDest(root, false)
+		if err != nil {
+			rt.Fatalf("harness: %v", err)
+		}
+		defer closeDest()
+		id, perr := g4Receive(dest, 1000, 1, wire, src.size, true, nil)
+		if perr != nil {
+			sig := "C10/valid-transfer-rejected"
+			if longer {
+				sig = "C10/compressed-stream-exceeds-size-limit"
+			}
+			c10Fail(rt, rec, sig, fmt.Sprintf("compressed transfer of a full snapshot (%d stream bytes, %d wire bytes, 512-byte pages, one %d-byte random blob) failed: %v", len(src.data), len(wire), 477+508*k, perr))
+			return
+		}
+		got, rerr := vsnap.RestoreDump(dest, id)
+		if rerr != nil || got != sn.Dump {
+			c10Fail(rt, rec, "C10/valid-transfer-wrong-content", fmt.Sprintf("compressed transfer of an incompressible database: restore err=%v equal=%v", rerr, got == sn.Dump))
+		}
+	})
 }
